@@ -67,6 +67,12 @@ def step (toks : List String) : String :=
       match ownerEdit ⟨su, cap, owner, dis⟩ sender ncap nowner ndis with
       | some t => s!"ok {t.cap} {t.owner} {bool01 t.ownerEditDisabled}" | none => "err"
     | _, _, _, _, _, _, _, _ => "bad-op"
+  | ["gov-edit", su, cap, owner, dis, psu, pcap] =>
+    match int? su, int? cap, nat? owner, parse01 dis, int? psu, int? pcap with
+    | some su, some cap, some owner, some dis, some psu, some pcap =>
+      match govEdit ⟨su, cap, owner, dis⟩ psu pcap with
+      | some t => s!"ok {t.supply} {t.cap} {t.owner} {bool01 t.ownerEditDisabled}" | none => "err"
+    | _, _, _, _, _, _ => "bad-op"
   | _ => "bad-op"
 
 end Sekai.Driver.Mint
